@@ -182,6 +182,8 @@ class C03Oracle(Oracle):
                     viol.append("non_forward")
                 self._conflict = {"viol": viol, "allowed": set(g.in_edges(v)), "must": (u, v)}
                 del rem_out
+        elif kind == "paint" and op.get("second_frame") is not None:
+            pass  # refused as an invalid argument (two time points), whatever else it conflicts with
         elif kind in ("add_node", "paint"):
             if kind == "add_node":
                 node, tid, t = op["node"], op["attrs"].get(tkey), op["attrs"].get(self.w.time_key)
@@ -632,9 +634,27 @@ class C01Oracle(Oracle):
             op["node"] = _pick(rnd, nodes)
             op["attrs"] = {CUSTOM_NODE: round(rnd.random() * 50, 3)} if rnd.random() < 0.7 else {NEW_KEY: rnd.randint(0, 9)}
         elif sub == "UpdateTrackIDs":
-            op["node"] = _pick(rnd, nodes)
-            op["tracklet_id"] = int(tr.get_next_track_id()) + rnd.randint(0, 3)
-            op["lineage_id"] = None if (w.lkey is None or rnd.random() < 0.4) else int(tr.get_next_lineage_id()) + rnd.randint(0, 2)
+            import networkx as nx
+
+            n0 = _pick(rnd, nodes)
+            op["node"] = n0
+            down = nx.descendants(g, n0) | {n0}
+            down_tids = {g.nodes[n].get(w.tkey) for n in down}
+            # ids in use by *unrelated* tracks are allowed (only downstream reuse is excluded)
+            others = sorted({int(d[w.tkey]) for n, d in g.nodes(data=True) if d.get(w.tkey) is not None} - down_tids)
+            if others and rnd.random() < 0.5:
+                op["tracklet_id"] = _pick(rnd, others)
+            else:
+                op["tracklet_id"] = int(tr.get_next_track_id()) + rnd.randint(0, 3)
+            if w.lkey is None or rnd.random() < 0.4:
+                op["lineage_id"] = None
+            else:
+                lin_others = sorted({int(d[w.lkey]) for n, d in g.nodes(data=True) if d.get(w.lkey) is not None}
+                                    - {g.nodes[n].get(w.lkey) for n in down})
+                if lin_others and rnd.random() < 0.4:
+                    op["lineage_id"] = _pick(rnd, lin_others)
+                else:
+                    op["lineage_id"] = int(tr.get_next_lineage_id()) + rnd.randint(0, 2)
         elif sub == "UpdateNodeSeg":
             n = _pick(rnd, nodes)
             t = w.time(n)
@@ -1014,6 +1034,32 @@ def bulk_mismatch(world, keys) -> str | None:
 
 
 class C08Oracle(Oracle):
+    extra_ops = {"feature_toggle": 1}
+
+    def gen_extra(self, kind, rnd):
+        from .world import _pick
+
+        tr = self.w.tracks
+        avail = [k for k in tr.annotators.all_features if k in REGION_KEYS and k != "area"]
+        iso = tr.scale is None or len(set(tr.scale[1:])) == 1
+        if self.w.ndim == 3 and not iso:
+            avail = [k for k in avail if k not in ("circularity", "perimeter")]
+        if not avail:
+            return None
+        k = _pick(rnd, sorted(avail))
+        return {"op": "feature_toggle", "key": k, "mode": "disable" if k in tr.annotators.features else "enable"}
+
+    def apply_extra(self, op, out):
+        tr = self.w.tracks
+        on = op["key"] in tr.annotators.features
+        with warnings.catch_warnings():
+            warnings.simplefilter("ignore")
+            if op["mode"] == "disable" and on:
+                tr.disable_features([op["key"]])
+            elif op["mode"] == "enable" and not on:
+                tr.enable_features([op["key"]])
+                self.col.event("re_enable_feature")
+
     def _keys(self):
         feats = self.w.tracks.annotators.features
         return [k for k in feats if k in REGION_KEYS or k == self.w.pos_key]
